@@ -33,8 +33,10 @@ func (r *requiredValidator) Validate() string {
 }
 
 func required(name string, typ types.Type) string {
-	// Handle slices, maps, and channels specifically for required validation
-	switch typ.(type) {
+	// Handle slices, maps, and channels specifically for required validation.
+	// Named and alias types are resolved to their underlying type first, so that
+	// `type Tags []string` is checked like `[]string`.
+	switch typ.Underlying().(type) {
 	case *types.Slice, *types.Map, *types.Chan:
 		return fmt.Sprintf("t.%s == nil", name)
 	case *types.Array:
